@@ -11,6 +11,7 @@
 
 #include <nix/DataSet.hpp>
 
+#include <algorithm>
 #include <nix/base/EntityWithSources.hpp>
 #include <nix/base/IDataArray.hpp>
 #include <nix/Dimensions.hpp>
@@ -320,6 +321,9 @@ public:
             throw nix::InvalidDimension("The ticks of a range dimension must not be empty!",
                                         "DataArray::appendRangeDimension");
         }
+        if (!std::is_sorted(ticks.begin(), ticks.end())) {
+            throw UnsortedTicks("DataArray::appendRangeDimension");
+        }
         RangeDimension dim = backend()->createRangeDimension(backend()->dimensionCount() + 1, ticks);
         if (label.size() > 0)
             dim.label(label);
@@ -371,13 +375,16 @@ public:
      */
     SampledDimension appendSampledDimension(double sampling_interval, const std::string &label="",
                                             const std::string &unit="", double offset=0.0) {
+        if (sampling_interval <= 0.0) {
+            throw std::runtime_error("DataArray::appendSampledDimension: Sampling intervals must be larger than 0.0!");
+        }
         SampledDimension dim = backend()->createSampledDimension(backend()->dimensionCount() + 1,
                                                                  sampling_interval);
         if (label.size() > 0)
             dim.label(label);
         if (unit.size() > 0)
             dim.unit(unit);
-        if (offset > 0.0)
+        if (offset != 0.0)
             dim.offset(offset);
         return dim;
     }
@@ -397,7 +404,7 @@ public:
      * @return The new DataFrameDimension
      */
     DataFrameDimension appendDataFrameDimension(const DataFrame &frame, unsigned column_index) {
-        if (column_index > frame.columns().size()) {
+        if (column_index >= frame.columns().size()) {
             throw nix::OutOfBounds("DataArray::appendDataFrameDimensios: Invalid columnIndex ", column_index);
         }
         if (!frame) {
